@@ -72,11 +72,11 @@ fn perm_words(max_l: usize) -> Vec<Vec<u8>> {
 fn main() {
     let run = Run::from_args("C03");
     let ties_alpha: Vec<X> = vec![None, Some(0.0), Some(1.0), Some(2.0)];
-    let perm_alpha: Vec<X> = std::iter::once(None).chain((1..=8).map(|v| Some(v as f64))).collect();
+    let perm_alpha: Vec<X> = std::iter::once(None).chain((1..=9).map(|v| Some(v as f64))).collect();
     let mut ties = mk("ties-deep", ties_alpha.clone(), run.pick(6, 8), tys_deep(), vec![Path::Ret]);
     ties.scales = vec![1.0 / 8192.0, 1024.0];
     let ties_m = mk("ties-matrix", ties_alpha.clone(), run.pick(4, 6), tys_matrix(), vec![Path::Ret, Path::Buf]);
-    let perms = mk("order-types", perm_alpha.clone(), run.pick(6, 7), tys_deep(), vec![Path::Ret]);
+    let perms = mk("order-types", perm_alpha.clone(), run.pick(6, 8), tys_deep(), vec![Path::Ret]);
     // zscore is excluded here: one-pass power sums of 2^31-sized values are ill-conditioned (DESIGN 5.2)
     let mut big = mk(
         "extreme-values",
